@@ -270,7 +270,10 @@ func c13ParseAuth(v string) c13Auth {
 			}
 			val = val[1 : len(val)-1]
 			for i := 0; i < len(val); i++ {
-				if c := val[i]; c == '"' || c == '\\' || c == 0x7f || (c < 0x20 && c != '\t') {
+				// a comma inside a quoted string is legal in RFC 7235 but read differently by
+				// comma-splitting parsers; the statement gives no grammar, so such values are
+				// "not strict" (soundness only) rather than decided by one reading or the other
+				if c := val[i]; c == '"' || c == '\\' || c == ',' || c == 0x7f || (c < 0x20 && c != '\t') {
 					return a
 				}
 			}
@@ -567,9 +570,9 @@ func c13ClassifyHeaders(vals []string, s c13Signed, r *c13Reasons) {
 			return
 		}
 	}
-	for _, a := range xs {
+	if len(xs) == 1 {
 		for _, name := range []string{"origin", "key", "sig"} {
-			if a.P[name] == "" {
+			if xs[0].P[name] == "" {
 				r.Hard("hdr/missing-" + name)
 				return
 			}
@@ -1671,8 +1674,8 @@ func c13GenHeaderSyntax(t *rapid.T) c13Case {
 
 func init() {
 	rule := "non-trivial = exactly one tampering of the transmitted request (method, URI incl. escape-only edits, body value / bytes only / invalid UTF-8 / removed / added, Content-Type, Authorization header fields, header dropped / duplicated / second header, scheme) or a receiver that does not own the destination or a signing key not usable at the time of receipt or an invalid origin or a header-syntax variant was applied, or the untampered request has both a body and a query string. distinct = distinct Case JSON."
-	vfRapid("C13/roundtrip", rule, 4000, 60000, 12, c13GenRoundTrip, c13Check)
-	vfRapid("C13/header-syntax", rule, 2500, 40000, 8, c13GenHeaderSyntax, c13Check)
+	vfRapid("C13/roundtrip", rule, 20000, 400000, 16, c13GenRoundTrip, c13Check)
+	vfRapid("C13/header-syntax", rule, 12000, 200000, 8, c13GenHeaderSyntax, c13Check)
 }
 
 // ---------------------------------------------------------------------------------------------
